@@ -92,6 +92,7 @@ func runC02(r *rt.Run) {
 	})
 	c02NearMiss(r)
 	c02NearParallel(r)
+	c02RootZigzags(r)
 	sharedRings(r, p, "shared-ring-object")
 	foreignRings(r, 4)
 	r.Sample(pairCase("intersects", p.polys[7].E, p.lines[100].E, ident, ""))
@@ -232,6 +233,97 @@ func c02NearParallel(r *rt.Run) {
 	})
 }
 
+// c02RootZigzags: lines whose every segment crosses the horizontal midline of
+// their own rectangle (a quadtree keeps them all in its root node), with
+// 2^8 +- 2 and 2^16 +- 2 segments, under no index / the default options / a
+// forced r-tree and quadtree, against points on and next to them, lines across
+// them and rectangles around their vertices; both operand orders.
+func rootZigzag(n int) *exact.Shape {
+	ps := make([]exact.P, n+1)
+	for k := range ps {
+		y := int64(2 * (1 + k%3))
+		if k%2 == 1 {
+			y = -y
+		}
+		ps[k] = exact.P{X: int64(2 * k), Y: y}
+	}
+	return &exact.Shape{Kind: exact.KLine, Line: ps}
+}
+
+var rootZigzagCfgs = []struct {
+	name string
+	o    *geometry.IndexOptions
+}{{"", idxNone}, {"default", nil}, {"alt", idxCfgs[2].Opts}, {"rtree", idxCfgs[1].Opts}}
+
+func evalRootZigzag(c *rt.Case) (bool, string, string, error) {
+	if len(c.Nums) != 1 || c.Nums[0] < 1 || c.Nums[0] > 1<<20 || c.B == nil {
+		return false, "", "", fmt.Errorf("malformed case")
+	}
+	ze := rootZigzag(int(c.Nums[0]))
+	pe, ok := exactOf(c.B, ident)
+	if !ok {
+		return false, "", "", fmt.Errorf("coordinates outside the exact domain")
+	}
+	for _, cf := range rootZigzagCfgs {
+		if cf.name == c.Cfg {
+			zg, pg := geomOf(ze, ident, cf.o), geomOf(pe, ident, idxNone)
+			want := exact.Intersects(ze, pe)
+			ab, ba := libIntersects(zg, pg), libIntersects(pg, zg)
+			return ab != want || ba != want, fmt.Sprint(want), fmt.Sprintf("%v / swapped %v", ab, ba), nil
+		}
+	}
+	return false, "", "", fmt.Errorf("unknown configuration")
+}
+
+func c02RootZigzags(r *rt.Run) {
+	sizes := []int{254, 255, 256, 257, 258, 65536}
+	if r.Thorough() {
+		sizes = append(sizes, 65534, 65535, 65537, 65538)
+	}
+	r.Bounds["root_node_zigzag_segments"] = sizes
+	r.ParFor(len(sizes), func(i int, w *rt.Worker) {
+		n := sizes[i]
+		ze := rootZigzag(n)
+		ps := ze.Line
+		w.Trans += int64(n)
+		var partners []*exact.Shape
+		for _, k := range []int{0, 1, 100, 127, 128, 200, 254, 255, 256, n / 2, n - 2, n - 1, n} {
+			if k < 0 || k > n {
+				continue
+			}
+			v := ps[k]
+			partners = append(partners, &exact.Shape{Kind: exact.KPoint, Pt: v}, &exact.Shape{Kind: exact.KPoint, Pt: exact.P{X: v.X + 1, Y: 0}},
+				&exact.Shape{Kind: exact.KPoint, Pt: exact.P{X: v.X, Y: 0}},
+				&exact.Shape{Kind: exact.KLine, Line: []exact.P{{X: v.X - 1, Y: v.Y}, {X: v.X + 1, Y: v.Y}}},
+				&exact.Shape{Kind: exact.KLine, Line: []exact.P{{X: v.X + 1, Y: 9}, {X: v.X + 1, Y: 11}}},
+				&exact.Shape{Kind: exact.KRect, Min: exact.P{X: v.X - 1, Y: v.Y - 1}, Max: exact.P{X: v.X + 1, Y: v.Y + 1}},
+				&exact.Shape{Kind: exact.KRect, Min: exact.P{X: v.X, Y: 9}, Max: exact.P{X: v.X + 3, Y: 12}})
+			if k < n {
+				partners = append(partners, &exact.Shape{Kind: exact.KPoint, Pt: exact.P{X: v.X + 1, Y: (v.Y + ps[k+1].Y) / 2}})
+			}
+		}
+		partners = append(partners, &exact.Shape{Kind: exact.KLine, Line: []exact.P{{X: -2, Y: 0}, {X: int64(2*n + 2), Y: 0}}},
+			&exact.Shape{Kind: exact.KLine, Line: []exact.P{{X: -2, Y: 9}, {X: int64(2*n + 2), Y: 9}}})
+		for _, cf := range rootZigzagCfgs {
+			zg := geomOf(ze, ident, cf.o)
+			w.States++
+			for _, pe := range partners {
+				want := exact.Intersects(ze, pe)
+				pg := geomOf(pe, ident, idxNone)
+				ab, ba := libIntersects(zg, pg), libIntersects(pg, zg)
+				w.Evals += 2
+				w.Nontriv++
+				if ab != want || ba != want {
+					cf, pe := cf, pe
+					w.Fail("intersects-root-zigzag", func() (rt.Case, string, string) {
+						return rt.Case{Kind: "rootzigzag", Op: "intersects", Nums: []float64{float64(n)}, B: descShape(pe, ident), Cfg: cf.name}, fmt.Sprint(want), fmt.Sprintf("%v / swapped %v", ab, ba)
+					})
+				}
+			}
+		}
+	})
+}
+
 func evalC02(c *rt.Case) (bool, string, string, error) {
 	ip := func(i int) exact.P { return exact.P{X: int64(c.Nums[i]), Y: int64(c.Nums[i+1])} }
 	var got, want []bool
@@ -246,6 +338,8 @@ func evalC02(c *rt.Case) (bool, string, string, error) {
 			return false, "", "", fmt.Errorf("malformed case")
 		}
 		got, want = nearParEval(ip(0), ip(2), ip(4), ip(6), ip(8))
+	case "rootzigzag":
+		return evalRootZigzag(c)
 	case "shared-ring":
 		return evalSharedRing(c)
 	case "foreign-ring":
